@@ -265,7 +265,7 @@ def run_case(case, res):
                         if len(out) > (n + 1) ** 2 + 5:
                             return out
                 return out
-            got = _guard("nested iteration over items()/values()", n * n + 2, all_pairs)
+            got = _guard("nested iteration over items()/values()", n + 1, all_pairs)
             if got[0] != "ok" or len(got[1]) != n * n or sorted({repr(p[0]) for p in got[1]}) != sorted(map(repr, m.val)):
                 raise Violation("view-content", f"nested iteration over the views of a cache with {n} entries produced "
                                 f"{len(got[1]) if got[0] == 'ok' else got} pairs (expected {n * n}, every key {n} times)", {})
